@@ -41,7 +41,7 @@ def run(rep, work, tier, seed):
         leg_mutant(rep, work, SPEC, "mutant_spawn_detached",
                    cfg_text(dict(small, Bug="spawn_detached"), spec="Spec", invariants=INVS, properties=PROPS),
                    ["CancelCascades", "NoOrphans", "SpawnTarget", "DetachedUntouched", "NoEscape"])
-    leg_r(rep, work, SPEC, f"conf_{tier}", cfg_text(conf, invariants=INVS), ScopeTasksDriver)
+    leg_r(rep, work, SPEC, f"conf_{tier}", cfg_text(conf, invariants=INVS), ScopeTasksDriver, world=True)
     # leg T: random programs of 5 tasks (~30 operations) recorded from the real library, validated by a trace module
     # generated from ScopeTasks.tla (existential acceptance: the spec is nondeterministic where the stdlib is)
     from props.scopetasks_common import TRACE_KW, gen_trace
